@@ -36,19 +36,28 @@ from pynetdicom.pdu_primitives import A_ABORT, A_P_ABORT
 (A_IDLE, A_P_RQ, A_P_AC, A_P_RJ, A_P_DATA, A_P_RELRQ, A_P_RELRP, A_P_ABORT, A_P_JUNK, A_P_CLOSE, A_T, A_CONSUME,
  A_U_PDATA, A_U_RELRQ, A_U_RELRP, A_U_ABORT, A_U_ACCEPT, A_U_REJECT, A_U_ASSOC_RQ,
  A_P_RQ_LATE, A_U_PDATA_RST, A_P_RESET, A_P_BADRQ, A_P_BADAC, A_P_TRUNC, A_P_PABORT, A_U_ABORT2,
- A_U_PABORT) = range(28)
-NA_QUICK, NA_FULL = 22, 28
+ A_U_PABORT, A_T_RQ, A_L_CLOSE) = range(30)
+NA_QUICK, NA_FULL = 22, 30
+# the quick alphabet is actions 0..21 plus the two added last (numbering is kept: recorded witnesses refer to it)
+QUICK_EXTRA = (A_T_RQ, A_L_CLOSE)
+
+
+def in_alphabet(a):
+    if NA == NA_FULL:
+        return 0 <= a and a < NA_FULL
+    return (0 <= a and a < NA_QUICK) or a == A_T_RQ or a == A_L_CLOSE
 ACTION_NAMES = ["idle", "peer:A-ASSOCIATE-RQ", "peer:A-ASSOCIATE-AC", "peer:A-ASSOCIATE-RJ", "peer:P-DATA-TF",
                 "peer:A-RELEASE-RQ", "peer:A-RELEASE-RP", "peer:A-ABORT", "peer:unknown-PDU-type", "peer:close(FIN)",
                 "ARTIM-expires", "user:consume-indication", "user:P-DATA", "user:A-RELEASE-rq", "user:A-RELEASE-rp",
                 "user:A-ABORT", "user:A-ASSOCIATE-accept", "user:A-ASSOCIATE-reject", "user:A-ASSOCIATE-rq",
                 "peer:A-ASSOCIATE-RQ-while-ARTIM-expires", "user:P-DATA-queued-when-RST-arrives", "peer:reset(RST)",
                 "peer:A-ASSOCIATE-RQ-bad-version", "peer:malformed-A-ASSOCIATE-AC", "peer:4-bytes-then-FIN",
-                "peer:A-ABORT(provider)", "user:A-ABORT(source2)", "user:A-P-ABORT"]
+                "peer:A-ABORT(provider)", "user:A-ABORT(source2)", "user:A-P-ABORT",
+                "ARTIM-expired-and-peer:A-ASSOCIATE-RQ-readable", "local:AssociationSocket.close()"]
 PEER_BYTES = {A_P_RQ: R.RQ_BYTES, A_P_AC: R.AC_BYTES, A_P_RJ: R.RJ_BYTES, A_P_DATA: R.PDATA_BYTES,
               A_P_RELRQ: R.RELRQ_BYTES, A_P_RELRP: R.RELRP_BYTES, A_P_ABORT: R.ABORT_BYTES, A_P_JUNK: R.JUNK_BYTES,
               A_P_RQ_LATE: R.RQ_BYTES, A_P_BADRQ: R.RQ_BAD_VERSION_BYTES, A_P_BADAC: R.BAD_AC_BYTES,
-              A_P_TRUNC: R.TRUNC_BYTES, A_P_PABORT: R.P_ABORT_BYTES}
+              A_P_TRUNC: R.TRUNC_BYTES, A_P_PABORT: R.P_ABORT_BYTES, A_T_RQ: R.RQ_BYTES}
 USER_ACTS = {A_U_PDATA: R.U_PDATA, A_U_RELRQ: R.U_RELRQ, A_U_RELRP: R.U_RELRP, A_U_ABORT: R.U_ABORT,
              A_U_ACCEPT: R.U_ACCEPT, A_U_REJECT: R.U_REJECT, A_U_ASSOC_RQ: R.U_ASSOC_RQ, A_U_ABORT2: R.U_ABORT2,
              A_U_PABORT: R.U_PABORT}
@@ -146,6 +155,14 @@ class Run:
                 if not dul.artim_timer.running:
                     out_of_bounds()
                 self.clock.jump_after = 1   # after the reactor's expiry check of this iteration
+            if a == A_T_RQ:
+                # two environment events between two iterations: the ARTIM deadline has passed AND the peer's
+                # request has become readable; PS3.8: the expiry is what the provider sees first (ARTIM is checked
+                # at the top of every iteration)
+                if not dul.artim_timer.running:
+                    out_of_bounds()
+                self.clock.jump_after = 0
+                self.must_end = True
         elif a == A_P_CLOSE or a == A_P_RESET:
             if raw.connected_to is None or raw.peer_closed or raw.reset or raw.closed_local:
                 out_of_bounds()
@@ -153,6 +170,12 @@ class Run:
                 raw.peer_closed = True
             else:
                 raw.reset = True
+            self.must_end = True
+        elif a == A_L_CLOSE:
+            # the local side drops the connection through the public transport API
+            if raw.connected_to is None or raw.peer_closed or raw.reset or raw.closed_local or dul.socket is None:
+                out_of_bounds()
+            dul.socket.close()               # real code: shuts the socket down and queues Evt17
             self.must_end = True
         elif a == A_T:
             if not dul.artim_timer.running:
@@ -375,8 +398,8 @@ _START = shard("start", 3)
     bounds="start configuration enumerated (quick: Sta1 requestor with/without connect failure, Sta2, Sta3, Sta5, Sta6, Sta7, "
            "Sta8, Sta13 in the roles that can be in them, 13 configurations; thorough: also Sta9-Sta12, 17 configurations); "
            "every schedule of exactly %d environment actions (idle is one of them, so shorter schedules are included) from an "
-           "alphabet of %d actions (quick) / 28 (thorough), followed by %d idle iterations.  Solver-enumerated." % (
-               N, NA_QUICK, IDLE_TAIL),
+           "alphabet of %d actions (quick) / 30 (thorough), followed by %d idle iterations.  Solver-enumerated." % (
+               N, NA_QUICK + 2, IDLE_TAIL),
     stubs=R.STUBS + ["UserView: the local user's primitives are restricted by the contract automaton of DESIGN C05 (its view "
                      "= what it has sent and consumed); consuming the oldest indication is itself an environment action"],
     outside="schedules longer than the bound; pre-emption inside one reactor iteration (except the clock passing the ARTIM "
@@ -388,7 +411,7 @@ _START = shard("start", 3)
 def reactor_schedule(steps: List[int]) -> bool:
     """
     pre: len(steps) == N
-    pre: all(0 <= a < NA for a in steps)
+    pre: all(in_alphabet(a) for a in steps)
     pre: _FIRST < 0 or steps[0] == _FIRST
     post: _ == True
     """
